@@ -251,6 +251,10 @@ static void h_op(void)
       if (dig) o_add(sq->n ? h_hex(sq->dsq + 1, esl_abc_dsqlen(sq->dsq)) : (esl_abc_dsqlen(sq->dsq) ? "LONG" : "-")); else o_str(sq->seq);
       o_add(" ss="); o_str(sq->ss ? (dig ? sq->ss + 1 : sq->ss) : NULL);
       for (x = 0; x < sq->nxr; x++) { o_add(" xr="); o_str(sq->xr_tag[x]); o_add(","); o_str(sq->xr[x] ? (dig ? sq->xr[x] + 1 : sq->xr[x]) : NULL); }
+      { int padok = 1;      /* digital sequences keep a leading NUL before ss / xr so that they are indexed 1..n like dsq */
+        if (dig && sq->ss && sq->ss[0] != '\0') padok = 0;
+        for (x = 0; dig && x < sq->nxr; x++) if (sq->xr[x] && sq->xr[x][0] != '\0') padok = 0;
+        o_add(padok ? " pad=ok" : " pad=BAD"); }
     }
     h_out("%s", ob);
     if (sq) esl_sq_Destroy(sq);
